@@ -15,7 +15,11 @@ PROVENANCE = os.environ.get("VERIF_AST_PROVENANCE", "")
 def parse(text):
     """Parse with a fresh lexer and parser (how the shorthands do it)."""
     from odata_query.grammar import ODataLexer, ODataParser
-    a = ODataParser().parse(ODataLexer().tokenize(text))
+    return with_provenance(ODataParser().parse(ODataLexer().tokenize(text)), text)
+
+
+def with_provenance(a, text):
+    """The tree for `text` as the current provenance variant supplies it (a: the tree parsed here)."""
     if PROVENANCE == "foreign-pickle":
         return _foreign(text)
     if PROVENANCE == "hashcons":
